@@ -359,7 +359,9 @@ func (t *Transport) SendRequest(subj string, payload []byte, cb mq.Response) {
 		key += fmt.Sprintf("@c%d", r.CIdx)
 	}
 	if r.Query != "" {
-		key += "?" + r.Query
+		// (a query may hold the connection id: ids name requests in decision
+		// traces, which must not depend on the ids drawn in one particular run)
+		key += "?" + s.canonLocked(r.Query)
 	}
 	r.ID = fmt.Sprintf("%s~%d", key, t.reqCount[key])
 	t.reqCount[key]++
